@@ -344,7 +344,12 @@ def r16_question(text, ctx):
         ctx.q += 1
         q = '__q%d' % ctx.q
         lm = re.match(r'let\s+(.+?)\s*=\s*(?!=)', core, re.S)
-        if core.startswith('let ') and lm:
+        am = re.match(r'([A-Za-z_][\w\.]*(?:\[[^\]]*\])?)\s*=\s*(?!=)', core, re.S)
+        if not core.startswith('let ') and am:
+            # assignment `x = E?;`
+            out.append('%slet %s = %s;' % (ind, q, core[am.end():]))
+            out.append('%s%s = %s?;' % (ind, am.group(1), q))
+        elif core.startswith('let ') and lm:
             out.append('%slet %s = %s;' % (ind, q, core[lm.end():]))
             out.append('%slet %s = %s?;' % (ind, lm.group(1), q))
         elif core.startswith('return '):
